@@ -20,6 +20,7 @@ var (
 	replayFile      = flag.String("replay", "", "replay a journaled case instead of generating")
 	maxSteps        = flag.Int("steps", 14, "maximum number of steps per generated history")
 	tier            = flag.String("tier", "quick", "quick|thorough")
+	ageWraps        = flag.Int("agewraps", 60, "C18: extra low-work-factor password-wrapped age identities parsed per age case")
 	schedules       = flag.Int("schedules", 3, "C11: perturbed schedules per generated program set")
 	replayRuns      = flag.Int("replayruns", 8, "C11: how often a replayed case is executed")
 	gnuTar          = flag.Bool("gnutar", false, "C17: let /usr/bin/tar write a third of the archives")
@@ -112,6 +113,8 @@ func (x *hctx) classify(s hist.Step, res hist.Res, mres hist.MRes) {
 		}
 	case "reopen":
 		x.label("has-reopen")
+	case "rebuild":
+		x.label("has-rebuild-and-continue")
 	case "symlink":
 		if res.Err == nil {
 			x.label("has-symlink")
@@ -244,6 +247,10 @@ func checkObs(f failer, err error, what string) {
 
 // rapidHistory is the generating front end of runCase.
 func rapidHistory(t *rapid.T, prop string, cfg world.Cfg, weights map[string]int, universe []string, orc oracle, avoid func(hist.Step, *hist.MRunner) string) {
+	rapidHistoryOpts(t, prop, cfg, weights, universe, orc, avoid, world.Opts{})
+}
+
+func rapidHistoryOpts(t *rapid.T, prop string, cfg world.Cfg, weights map[string]int, universe []string, orc oracle, avoid func(hist.Step, *hist.MRunner) string, opts world.Opts) {
 	g := hist.NewGen(t, weights, universe, 4, cfg.RecordSize)
 	if guard("F-33") && cfg.Compression == "parallelbzip2" && cfg.Encryption == "pgp" {
 		g.MaxSize = 90000 // finding F-33: larger contents cannot be read back
@@ -251,7 +258,11 @@ func rapidHistory(t *rapid.T, prop string, cfg world.Cfg, weights map[string]int
 	}
 	g.Avoid = avoid
 	n := rapid.IntRange(1, *maxSteps).Draw(t, "nsteps")
-	runCase(t, prop, cfg, nil, orc, world.Opts{}, func(x *hctx, i int) (hist.Step, bool) {
+	var params hist.Params
+	if opts.Overwrite || opts.TapeLikeWriter {
+		params = hist.Params{"overwrite": opts.Overwrite, "tape_like_writer": opts.TapeLikeWriter}
+	}
+	runCase(t, prop, cfg, params, orc, opts, func(x *hctx, i int) (hist.Step, bool) {
 		if i >= n {
 			return hist.Step{}, false
 		}
@@ -294,6 +305,12 @@ func TestReplay(t *testing.T) {
 		t.Fatalf("no replay for property %q", c.Property)
 	}
 	opts := world.Opts{}
+	if b, _ := c.Params["overwrite"].(bool); b {
+		opts.Overwrite = true
+	}
+	if b, _ := c.Params["tape_like_writer"].(bool); b {
+		opts.TapeLikeWriter = true
+	}
 	if c.Property == "C06" || c.Property == "C16" {
 		opts.Probe = sharedProbe
 	}
